@@ -1,3 +1,5 @@
+(* C03 proofs about the reference semantics: loop fields; scoping (which constructs can change
+   which part of the variable environment). *)
 From MJ Require Import Common.Base Lang.Syntax Lang.Meta Lang.Interp.
 
 Lemma loop_fields_proof i n : 0 <= i < n ->
@@ -9,3 +11,339 @@ Lemma loop_fields_proof i n : 0 <= i < n ->
   loop_attr i n A_first = Some (VBool (i =? 0)) /\
   loop_attr i n A_last = Some (VBool (i =? n - 1)).
 Proof. intros _. repeat split. Qed.
+
+Lemma bind_ok {A B} (o : outcome A) (f : A -> outcome B) r :
+  bind o f = Ok r -> exists a, o = Ok a /\ f a = Ok r.
+Proof. destruct o; cbn; intros H; try discriminate. eauto. Qed.
+
+(* one inversion step of [bind o f = Ok r], with explicit names *)
+Ltac bstep H a Ho := apply bind_ok in H; destruct H as (a & Ho & H); cbv beta in H.
+
+(* [R s s']: only the innermost scope may differ *)
+Definition R (s s' : st) : Prop :=
+  tl (s_env s') = tl (s_env s) /\ length (s_env s') = length (s_env s).
+
+Lemma R_refl s : R s s. Proof. split; reflexivity. Qed.
+Lemma R_trans a b c : R a b -> R b c -> R a c.
+Proof. intros [H1 H2] [H3 H4]. split; congruence. Qed.
+Lemma R_of_eq s s' : s_env s' = s_env s -> R s s'.
+Proof. intros H. split; rewrite H; reflexivity. Qed.
+
+Lemma lookup_env c s x v s' : lookup c s x = (v, s') -> s_env s' = s_env s.
+Proof.
+  unfold lookup. destruct (load c (s_clos s) (s_env s) x) as [v0 asked].
+  intros H. inversion H; subst. destruct asked; reflexivity.
+Qed.
+
+Lemma store_R s x v : R s (store s x v).
+Proof. unfold store, R. destruct (s_env s) as [|f r] eqn:E; cbn; rewrite ?E; cbn; auto. Qed.
+
+Lemma store_env_cons s x v f r : s_env s = f :: r -> exists f', s_env (store s x v) = f' :: r.
+Proof. intros H. unfold store. rewrite H. cbn. eauto. Qed.
+
+Lemma enclose_fold_env c id names : forall s,
+  s_env (fold_left (fun s x =>
+            match nth_error (s_clos s) id with
+            | Some cl =>
+                match assoc x cl with
+                | Some _ => s
+                | None => let '(v, s') := lookup c s x in
+                          mkSt (s_env s') (set_nth_clos id (assoc_set x (match v with Some v => v | None => VUndef end)) (s_clos s'))
+                               (s_out s') (s_asks s')
+                end
+            | None => s
+            end) names s) = s_env s.
+Proof.
+  induction names as [|x names IH]; intros s; cbn [fold_left]; [reflexivity|].
+  rewrite IH. destruct (nth_error (s_clos s) id) as [cl|]; [|reflexivity].
+  destruct (assoc x cl); [reflexivity|].
+  destruct (lookup c s x) as [v s'] eqn:E. cbn. eapply lookup_env; eassumption.
+Qed.
+
+Lemma enclose_R c s names s' cl : enclose c s names = (s', cl) -> R s s'.
+Proof.
+  unfold enclose. destruct names as [|n names].
+  - intros H. inversion H; subst. apply R_refl.
+  - set (nl := n :: names). destruct (s_env s) as [|f r] eqn:Ee.
+    + intros H. inversion H; subst. apply R_refl.
+    + destruct (f_closure f) as [id|].
+      * intros H. apply (f_equal fst) in H. cbn [fst] in H. subst s'.
+        apply R_of_eq. apply enclose_fold_env.
+      * intros H. apply (f_equal fst) in H. cbn [fst] in H. subst s'.
+        unfold R. rewrite enclose_fold_env. cbn [s_env]. rewrite Ee. cbn. auto.
+Qed.
+
+Section Combinators.
+Variable ev : st -> expr -> outcome (value * st).
+Hypothesis Hev : forall s e v s', ev s e = Ok (v, s') -> s_env s' = s_env s.
+
+Lemma map_eval_env : forall l s vs s', map_eval ev s l = Ok (vs, s') -> s_env s' = s_env s.
+Proof.
+  induction l as [|x r IH]; intros s vs s' H; cbn [map_eval] in H.
+  - inversion H; reflexivity.
+  - bstep H p1 E1. destruct p1 as [v s1]. bstep H p2 E2. destruct p2 as [vs' s2]. inversion H; subst.
+    rewrite (IH _ _ _ E2). eapply Hev; eassumption.
+Qed.
+
+Lemma map_eval_kw_env : forall l s vs s', map_eval_kw ev s l = Ok (vs, s') -> s_env s' = s_env s.
+Proof.
+  induction l as [|[k x] r IH]; intros s vs s' H; cbn [map_eval_kw] in H.
+  - inversion H; reflexivity.
+  - bstep H p1 E1. destruct p1 as [v s1]. bstep H p2 E2. destruct p2 as [vs' s2]. inversion H; subst.
+    rewrite (IH _ _ _ E2). eapply Hev; eassumption.
+Qed.
+
+Lemma cmp_chain_env m : forall l left s v s', cmp_chain m ev left s l = Ok (v, s') -> s_env s' = s_env s.
+Proof.
+  induction l as [|[op r] l IH]; intros left s v s' H; cbn [cmp_chain] in H.
+  - inversion H; reflexivity.
+  - bstep H p1 E1. destruct p1 as [y s2]. bstep H b E2. destruct l as [|p l'].
+    + inversion H; subst. eapply Hev; eassumption.
+    + destruct b.
+      * rewrite (IH _ _ _ _ H). eapply Hev; eassumption.
+      * inversion H; subst. eapply Hev; eassumption.
+Qed.
+
+Lemma with_binds_R : forall l s s', with_binds ev s l = Ok s' -> R s s'.
+Proof.
+  induction l as [|[x e] r IH]; intros s s' H; cbn [with_binds] in H.
+  - inversion H; apply R_refl.
+  - bstep H p1 E1. destruct p1 as [v s1]. eapply R_trans; [|eapply IH; eassumption].
+    eapply R_trans; [apply R_of_eq; eapply Hev; eassumption|apply store_R].
+Qed.
+
+Lemma bind_target_R tgt s item s' : bind_target tgt s item = Ok s' -> R s s'.
+Proof.
+  unfold bind_target. destruct tgt as [x|x y].
+  - intros H; inversion H; apply store_R.
+  - destruct item; try discriminate. destruct l as [|a [|b [|? ?]]]; try discriminate.
+    intros H; inversion H. eapply R_trans; apply store_R.
+Qed.
+
+Lemma filter_items_env m tgt fe : forall l s r s', filter_items m ev tgt fe s l = Ok (r, s') -> s_env s' = s_env s.
+Proof.
+  induction l as [|item l IH]; intros s r s' H; cbn [filter_items] in H.
+  - inversion H; reflexivity.
+  - bstep H sf1 E1. bstep H p2 E2. destruct p2 as [v sf2]. bstep H keep E3. bstep H p4 E4. destruct p4 as [rest s3].
+    inversion H; subst.
+    rewrite (IH _ _ _ E4). unfold pop_frame; cbn [s_env].
+    rewrite (Hev _ _ _ _ E2). apply bind_target_R in E1 as [Ht _]. rewrite Ht. reflexivity.
+Qed.
+End Combinators.
+
+Section Statements.
+Variable ex : st -> list stmt -> outcome (signal * st).
+Hypothesis Hex : forall s l sg s', ex s l = Ok (sg, s') -> R s s'.
+Variable ev : st -> expr -> outcome (value * st).
+Hypothesis Hev : forall s e v s', ev s e = Ok (v, s') -> s_env s' = s_env s.
+
+Lemma if_arms_R m els : forall l s sg s', if_arms m ev ex els s l = Ok (sg, s') -> R s s'.
+Proof.
+  induction l as [|[cnd body] l IH]; intros s sg s' H; cbn [if_arms] in H.
+  - destruct els; [eapply Hex; eassumption|inversion H; apply R_refl].
+  - bstep H p1 E1. destruct p1 as [v s1]. bstep H b E2.
+    eapply R_trans; [apply R_of_eq; eapply Hev; eassumption|].
+    destruct b; [eapply Hex; eassumption|eapply IH; eassumption].
+Qed.
+
+Lemma loop_items_R tgt body n : forall l s i s', loop_items ex tgt body n s i l = Ok s' -> R s s'.
+Proof.
+  induction l as [|item l IH]; intros s i s' H; cbn [loop_items] in H.
+  - inversion H; apply R_refl.
+  - bstep H s3 E1. bstep H p2 E2. destruct p2 as [sg s4].
+    assert (R s s4).
+    { eapply R_trans; [|eapply R_trans; [eapply bind_target_R; eassumption|eapply Hex; eassumption]].
+      unfold R, with_env. destruct (s_env s) as [|f0 e0] eqn:Ee; cbn [s_env tl length]; rewrite ?Ee; cbn [tl length]; auto. }
+    destruct sg; try (eapply R_trans; [eassumption|eapply IH; eassumption]).
+    inversion H; subst; assumption.
+Qed.
+End Statements.
+
+(* the four mutually recursive functions, by induction on the fuel *)
+Lemma env_all c : forall fuel,
+  (forall esc s e v s', eval c fuel esc s e = Ok (v, s') -> s_env s' = s_env s) /\
+  (forall esc s mc cl args kw v s', call_macro c fuel esc s mc cl args kw = Ok (v, s') -> s_env s' = s_env s) /\
+  (forall esc s t sg s', exec c fuel esc s t = Ok (sg, s') -> R s s') /\
+  (forall esc s l sg s', exec_list c fuel esc s l = Ok (sg, s') -> R s s').
+Proof.
+  induction fuel as [|fuel (IHe & IHm & IHx & IHl)].
+  - repeat split; intros; discriminate.
+  - assert (He : forall esc s e v s', eval c fuel esc s e = Ok (v, s') -> s_env s' = s_env s) by exact IHe.
+    split; [|split; [|split]].
+    + (* eval *)
+      intros esc s e v s' H. cbn [eval] in H. destruct e.
+      * destruct l; inversion H; reflexivity.
+      * destruct (lookup c s x) as [v0 s1] eqn:E. inversion H; subst. eapply lookup_env; eassumption.
+      * bstep H p1 E1. destruct p1 as [vs s1]. inversion H; subst. eapply map_eval_env; [apply He|eassumption].
+      * bstep H p1 E1. destruct p1 as [v0 s1]. destruct v0; inversion H; subst. eapply He; eassumption.
+      * bstep H p1 E1. destruct p1 as [v0 s1]. bstep H b E2. inversion H; subst. eapply He; eassumption.
+      * bstep H p1 E1. destruct p1 as [x s1]. bstep H p2 E2. destruct p2 as [y s2]. bstep H u E3. bstep H r E4.
+        inversion H; subst. rewrite (He _ _ _ _ _ E2). eapply He; eassumption.
+      * bstep H p1 E1. destruct p1 as [x s1]. rewrite (cmp_chain_env _ (He esc) _ _ _ _ _ _ H). eapply He; eassumption.
+      * bstep H p1 E1. destruct p1 as [x s1]. bstep H b E2. destruct b.
+        -- rewrite (He _ _ _ _ _ H). eapply He; eassumption.
+        -- inversion H; subst. eapply He; eassumption.
+      * bstep H p1 E1. destruct p1 as [x s1]. bstep H b E2. destruct b.
+        -- inversion H; subst. eapply He; eassumption.
+        -- rewrite (He _ _ _ _ _ H). eapply He; eassumption.
+      * bstep H p1 E1. destruct p1 as [x s1]. bstep H b E2. destruct b.
+        -- rewrite (He _ _ _ _ _ H). eapply He; eassumption.
+        -- destruct f as [f|].
+           ++ rewrite (He _ _ _ _ _ H). eapply He; eassumption.
+           ++ inversion H; subst. eapply He; eassumption.
+      * bstep H p1 E1. destruct p1 as [x s1]. bstep H p2 E2. destruct p2 as [k s2].
+        assert (H2 : s_env s2 = s_env s) by (rewrite (He _ _ _ _ _ E2); eapply He; eassumption).
+        destruct (match x, k with VList l, VInt z => idx_list l z | _, _ => None end).
+        -- inversion H; subst; assumption.
+        -- bstep H u E3. inversion H; subst; assumption.
+      * bstep H p1 E1. destruct p1 as [x s1].
+        assert (H1 : s_env s1 = s_env s) by (eapply He; eassumption).
+        destruct (match x with VLoop i n => loop_attr i n a | _ => None end).
+        -- inversion H; subst; assumption.
+        -- bstep H u E3. inversion H; subst; assumption.
+      * bstep H p1 E1. destruct p1 as [x s1]. bstep H p2 E2. destruct p2 as [vs s2]. bstep H r E3. inversion H; subst.
+        rewrite (map_eval_env _ (He esc) _ _ _ _ E2). eapply He; eassumption.
+      * bstep H p1 E1. destruct p1 as [x s1]. bstep H p2 E2. destruct p2 as [vs s2]. bstep H r E3. inversion H; subst.
+        rewrite (map_eval_env _ (He esc) _ _ _ _ E2). eapply He; eassumption.
+      * bstep H p1 E1. destruct p1 as [vs s1]. bstep H p2 E2. destruct p2 as [kvs s2].
+        destruct (lookup c s2 f) as [fv s3] eqn:El.
+        assert (H3 : s_env s3 = s_env s).
+        { rewrite (lookup_env _ _ _ _ _ El), (map_eval_kw_env _ (He esc) _ _ _ _ E2). eapply map_eval_env; [apply He|eassumption]. }
+        destruct fv as [fv|]; [|discriminate].
+        destruct fv; try discriminate.
+        -- rewrite (IHm _ _ _ _ _ _ _ _ H). assumption.
+        -- destruct (f0 =? N_range); [|discriminate].
+           destruct vs as [|v1 vs']; [discriminate|]. destruct v1; try discriminate.
+           destruct vs'; [|discriminate]. destruct kvs; [|discriminate].
+           inversion H; subst; assumption.
+    + (* call_macro: the caller's environment is restored by construction *)
+      intros esc s mc cl args kw v s' H. cbn [call_macro] in H.
+      destruct (Nat.ltb _ _); [discriminate|]. bstep H bound E1.
+      match type of H with context [if ?b then _ else _] => destruct b end; [discriminate|]. bstep H s1 E2. bstep H p3 E3. destruct p3 as [sg s2].
+      inversion H; reflexivity.
+    + (* exec *)
+      intros esc s t sg s' H. cbn [exec] in H. destruct t.
+      * inversion H; subst. apply R_of_eq; reflexivity.
+      * bstep H p1 E1. destruct p1 as [v s1]. destruct (_ && _); [discriminate|]. inversion H; subst.
+        apply R_of_eq. cbn. eapply He; eassumption.
+      * eapply if_arms_R; [apply IHl|apply He|eassumption].
+      * bstep H p1 E1. destruct p1 as [iv s1]. bstep H items0 E2. bstep H p3 E3. destruct p3 as [items s2].
+        assert (H2 : s_env s2 = s_env s).
+        { transitivity (s_env s1); [|eapply He; eassumption].
+          destruct filter as [fe|]; [eapply filter_items_env; [apply He|eassumption]|inversion E3; reflexivity]. }
+        bstep H s5 E4.
+        pose proof (loop_items_R _ (IHl esc) _ _ _ _ _ _ _ E4) as [Ht Hl]. cbn [push_frame s_env tl length] in Ht, Hl.
+        assert (H6 : s_env (pop_frame s5) = s_env s) by (unfold pop_frame; cbn [s_env]; congruence).
+        destruct items as [|i0 items]; [destruct els as [eb|]|].
+        -- eapply R_trans; [apply R_of_eq; eassumption|eapply IHl; eassumption].
+        -- inversion H; subst. apply R_of_eq; assumption.
+        -- inversion H; subst. apply R_of_eq; assumption.
+      * bstep H p1 E1. destruct p1 as [v s1]. inversion H; subst.
+        eapply R_trans; [apply R_of_eq; eapply He; eassumption|apply store_R].
+      * bstep H p1 E1. destruct p1 as [[sg0 txt] s1]. bstep E1 p2 E2. destruct p2 as [sg1 s1'].
+        inversion E1; subst.
+        assert (HR : R s (with_out s1' (s_out s))).
+        { apply IHl in E2. destruct E2 as [A B]. split; cbn in *; assumption. }
+        destruct sg0.
+        -- bstep H v E3. inversion H; subst. eapply R_trans; [eassumption|apply store_R].
+        -- inversion H; subst; assumption.
+        -- inversion H; subst; assumption.
+      * bstep H s1 E1. bstep H p2 E2. destruct p2 as [sg0 s2]. inversion H; subst.
+        apply with_binds_R in E1; [|apply He]. apply IHl in E2.
+        destruct E1 as [A B], E2 as [C D]. cbn [push_frame s_env tl length] in A, B.
+        apply R_of_eq. unfold pop_frame; cbn [s_env]. congruence.
+      * destruct (enclose c s _) as [s1 cl] eqn:E. inversion H; subst.
+        eapply R_trans; [eapply enclose_R; eassumption|apply store_R].
+      * bstep H p1 E1. destruct p1 as [vs s1].
+        destruct (enclose c s1 _) as [s2 cl] eqn:E.
+        destruct (lookup c s2 m) as [fv s3] eqn:El.
+        assert (HR : R s s3).
+        { eapply R_trans; [apply R_of_eq; eapply map_eval_env; [apply He|eassumption]|].
+          eapply R_trans; [eapply enclose_R; eassumption|apply R_of_eq; eapply lookup_env; eassumption]. }
+        destruct fv as [fv|]; [|discriminate]. destruct fv; try discriminate.
+        bstep H p4 E4. destruct p4 as [v s4]. inversion H; subst.
+        eapply R_trans; [eassumption|]. apply R_of_eq. cbn. eapply IHm; eassumption.
+      * bstep H p1 E1. destruct p1 as [[sg0 txt] s1]. bstep E1 p2 E2. destruct p2 as [sg1 s1'].
+        inversion E1; subst.
+        assert (HR : R s (with_out s1' (s_out s))).
+        { apply IHl in E2. destruct E2 as [A B]. split; cbn in *; assumption. }
+        destruct sg0.
+        -- bstep H v E3. inversion H; subst. eapply R_trans; [eassumption|]. apply R_of_eq; reflexivity.
+        -- inversion H; subst; assumption.
+        -- inversion H; subst; assumption.
+      * bstep H p1 E1. destruct p1 as [v0 s1]. bstep H esc' E2.
+        eapply R_trans; [apply R_of_eq; eapply He; eassumption|eapply IHl; eassumption].
+      * inversion H; apply R_refl.
+      * inversion H; apply R_refl.
+    + (* exec_list *)
+      intros esc s l sg s' H. cbn [exec_list] in H. destruct l as [|t r].
+      * inversion H; apply R_refl.
+      * bstep H p1 E1. destruct p1 as [sg0 s1]. apply IHx in E1.
+        destruct sg0; try (inversion H; subst; assumption).
+        eapply R_trans; [eassumption|eapply IHl; eassumption].
+Qed.
+
+(* ---- corollaries: which construct can change which scope ---- *)
+Lemma eval_env_proof c fuel esc s e v s' : eval c fuel esc s e = Ok (v, s') -> s_env s' = s_env s.
+Proof. apply (env_all c fuel). Qed.
+
+Lemma call_macro_env_proof c fuel esc s mc cl args kw v s' :
+  call_macro c fuel esc s mc cl args kw = Ok (v, s') -> s_env s' = s_env s.
+Proof. apply (env_all c fuel). Qed.
+
+Lemma exec_R_proof c fuel esc s t sg s' : exec c fuel esc s t = Ok (sg, s') ->
+  tl (s_env s') = tl (s_env s) /\ length (s_env s') = length (s_env s).
+Proof. apply (env_all c fuel). Qed.
+
+Lemma exec_list_R c fuel esc s l sg s' : exec_list c fuel esc s l = Ok (sg, s') -> R s s'.
+Proof. apply (env_all c fuel). Qed.
+
+Lemma with_scoped_proof c fuel esc s binds body sg s' :
+  exec c fuel esc s (SWith binds body) = Ok (sg, s') -> s_env s' = s_env s.
+Proof.
+  destruct fuel as [|fuel]; [discriminate|]. intros H. cbn [exec] in H.
+  bstep H s1 E1. bstep H p2 E2. destruct p2 as [sg0 s2]. inversion H; subst.
+  apply with_binds_R in E1; [|apply eval_env_proof]. apply exec_list_R in E2.
+  destruct E1 as [A B], E2 as [C D]. cbn [push_frame s_env tl length] in A, B.
+  unfold pop_frame; cbn [s_env]. congruence.
+Qed.
+
+Lemma for_scoped_proof c fuel esc s tgt iter flt body rc sg s' :
+  exec c fuel esc s (SFor tgt iter flt body None rc) = Ok (sg, s') -> s_env s' = s_env s.
+Proof.
+  destruct fuel as [|fuel]; [discriminate|]. intros H. cbn [exec] in H.
+  bstep H p1 E1. destruct p1 as [iv s1]. bstep H items0 E2. bstep H p3 E3. destruct p3 as [items s2].
+  assert (H2 : s_env s2 = s_env s).
+  { transitivity (s_env s1); [|eapply eval_env_proof; eassumption].
+    destruct flt as [fe|]; [eapply filter_items_env; [apply eval_env_proof|eassumption]|inversion E3; reflexivity]. }
+  bstep H s5 E4.
+  pose proof (loop_items_R _ (exec_list_R c fuel esc) _ _ _ _ _ _ _ E4) as [Ht Hl]. cbn [push_frame s_env tl length] in Ht, Hl.
+  assert (H6 : s_env (pop_frame s5) = s_env s) by (unfold pop_frame; cbn [s_env]; congruence).
+  destruct items; inversion H; subst; assumption.
+Qed.
+
+Lemma set_persists_proof c fuel esc s x e sg s' : s_env s <> [] ->
+  exec c fuel esc s (SSet x e) = Ok (sg, s') ->
+  exists v s1 f r, eval c (pred fuel) esc s e = Ok (v, s1) /\ s_env s' = f :: r /\ assoc x (f_locals f) = Some v
+                   /\ r = tl (s_env s).
+Proof.
+  intros Hne H. destruct fuel as [|fuel]; [discriminate|]. cbn [exec] in H.
+  bstep H p1 E1. destruct p1 as [v s1]. inversion H; subst. cbn [pred].
+  pose proof (eval_env_proof _ _ _ _ _ _ _ E1) as He.
+  unfold store. destruct (s_env s1) as [|f r] eqn:Ee; [congruence|].
+  exists v, s1. eexists. exists r. cbn [s_env f_locals].
+  split; [eassumption|]. split; [reflexivity|]. split.
+  - clear. induction (f_locals f) as [|[k w] l IH]; cbn; [rewrite Z.eqb_refl; reflexivity|].
+    destruct (x =? k) eqn:E; cbn; [rewrite Z.eqb_refl; reflexivity|rewrite E; exact IH].
+  - rewrite <- He. reflexivity.
+Qed.
+
+Lemma if_in_place_proof c fuel esc s cnd body els v s1 :
+  eval c fuel esc s cnd = Ok (v, s1) -> u_is_true (c_mode c) v = Ok true ->
+  exec c (S fuel) esc s (SIf [(cnd, body)] els) = exec_list c fuel esc s1 body.
+Proof.
+  intros E T.
+  change (exec c (S fuel) esc s (SIf [(cnd, body)] els))
+    with (if_arms (c_mode c) (eval c fuel esc) (exec_list c fuel esc) els s [(cnd, body)]).
+  cbn [if_arms]. rewrite E. cbn [bind]. rewrite T. reflexivity.
+Qed.
